@@ -22,6 +22,6 @@ Extraction "model.ml"
   lval limbs_of mul_generic from_mont_generic add_generic double_generic sub_generic neg_generic
   reduce_generic butterfly_generic i_add i_sub i_neg i_double i_mul i_from_mont i_to_mont i_inverse i_div
   i_exp i_legendre i_sqrt i_mul_by i_cmp i_lex_largest c_batch_invert_mont
-  partition_scalars c_msm_inner best_c split_loop nb_chunks
+  partition_scalars c_msm_inner c_multi_exp best_c split_loop nb_chunks
   c_pc_table c_pc_scalar_mul pc_digits
   read_point read_scalar mp_read ipa_read mp_write_chunks ipa_write_chunks write_all mkR.
